@@ -66,6 +66,7 @@ pub struct Machine {
     pub ts: TestStore,
     pub open: HashSet<[u8; 32]>,
     pub authors: Vec<Author>,
+    pub wipes: usize,
 }
 
 pub fn cpolicy(p: &DownloadPolicy) -> String {
@@ -83,7 +84,7 @@ pub fn cpolicy(p: &DownloadPolicy) -> String {
 
 impl Machine {
     pub fn new(persistent: bool, authors: Vec<Author>) -> anyhow::Result<Self> {
-        Ok(Machine { ts: TestStore::new(persistent)?, open: HashSet::new(), authors })
+        Ok(Machine { ts: TestStore::new(persistent)?, open: HashSet::new(), authors, wipes: 0 })
     }
 
     fn with_replica<T>(
@@ -274,6 +275,17 @@ impl Machine {
                     }
                     if *bykey {
                         tx.delete_table(redb::TableDefinition::<u64, u64>::new("records-by-key-1"))?;
+                    }
+                    // ... or what an upgrade interrupted after table creation leaves behind: the
+                    // derived tables exist and are empty (same names and types as store/fs/tables.rs)
+                    self.wipes += 1;
+                    if self.wipes % 2 == 0 {
+                        if *latest {
+                            let _ = tx.open_table(redb::TableDefinition::<(&[u8; 32], &[u8; 32]), (u64, &[u8])>::new("latest-by-author-1"))?;
+                        }
+                        if *bykey {
+                            let _ = tx.open_table(redb::TableDefinition::<(&[u8; 32], &[u8], &[u8; 32]), ()>::new("records-by-key-1"))?;
+                        }
                     }
                     tx.commit()?;
                 }
